@@ -77,7 +77,7 @@ def run(ctx):
     st_cls = public(ctx, I, "pydrex.minerals.StiffnessTensors")
     C = {"olivine": sym_matrix("Col", 6), "enstatite": sym_matrix("Cen", 6)}
     st = Record(st_cls, {"olivine": C["olivine"], "enstatite": C["enstatite"]})
-    N, nsteps = 1, 2
+    N, nsteps = (1, 2) if ctx.tier == "quick" else (2, 3)
     fab = {"olivine": "olivine_A", "enstatite": "enstatite_AB"}
     p, q = alg.psym("phiA"), alg.psym("phiB")
     configs = [(("olivine",), (p,)), (("enstatite",), (p,)), (("olivine", "enstatite"), (p, q)), (("enstatite", "olivine"), (q, p))]
